@@ -26,6 +26,7 @@ type NodeConfig struct {
 	DBPath      string // path without the ".v4" suffix the daemon appends
 	WAL         bool
 	Sync        string // "" → _synchronous=OFF (fast); "FULL" etc. for crash tests
+	CachePages  int    // > 0: SQLite page cache of that many pages (dirty pages spill to the file mid-transaction)
 	Wrap        bool   // route the daemon's database handle through sqlite3_verif
 	RetryPeriod time.Duration
 	DisableFork bool // app.DisableHardForkCheck
@@ -70,10 +71,14 @@ func (c NodeConfig) dsn() string {
 }
 
 func (c NodeConfig) mode() string {
+	m := "_synchronous=" + c.Sync
 	if c.Sync == "" {
-		return "_synchronous=OFF"
+		m = "_synchronous=OFF"
 	}
-	return "_synchronous=" + c.Sync
+	if c.CachePages > 0 {
+		m += fmt.Sprintf("&_cache_size=%d", c.CachePages)
+	}
+	return m
 }
 
 // ErrRefused is returned when NewPegnetd itself refuses to start (C19 observes this).
